@@ -155,6 +155,17 @@ def opFrame (j : Json) : Json :=
       obj [("class", strJ r.cls.name), ("alloc_le_max", Json.bool (decide (r.alloc ≤ max))), ("_alloc", natJ r.alloc)]
   | _, _, _, _ => badOp
 
+/-- `{"op":"trunc","max":M,"avail":[bytes],"dec":bool}`: `frame::mux_recv_proto` on a real mux stream fed
+`avail` (full length prefix of a valid message + a prefix of its body) and then CLOSEd -/
+def opTrunc (j : Json) : Json :=
+  match getNat j "max", getNatList j "avail", getBool j "dec" with
+  | some max, some avail, some dec =>
+    let r := Frame.muxRecvProto (fun _ => dec) max avail
+    let c := match r.cls with
+      | .ok => "ok" | .tooLarge => "too_large" | .eosLen => "eos" | .eosBody => "eos" | .decodeErr => "decode_err"
+    obj [("class", strJ c)]
+  | _, _, _ => badOp
+
 def opPreface (j : Json) : Json :=
   match getNatList j "s1", getBool j "s1dec", getBool j "hs", getNatList j "s3", getBool j "s3dec" with
   | some s1, some d1, some hs, some s3, some d3 =>
@@ -352,6 +363,7 @@ def handle (j : Json) : Json :=
   | some "muxhs" => opMuxHs j
   | some "frame" => opFrame j
   | some "preface" => opPreface j
+  | some "trunc" => opTrunc j
   | some "noise" => opNoise j
   | some "canon" => opCanon j
   | some "sel" => opSel j
